@@ -113,6 +113,9 @@ def replace_typevars(ty: t.Any,
         return replacements.get(ty, ty)
     if isinstance(ty, t.Sequence) and not isinstance(ty, (str, bytes)):
         return type(ty)(replace_typevars(t, replacements) for t in ty)  # type: ignore
+    if isinstance(ty, (dict, t.Mapping)):
+        # struct type literal (`{'a': T}`)
+        return type(ty)((k, replace_typevars(v, replacements)) for (k, v) in ty.items())  # type: ignore
 
     bound_vars = getattr(ty, '__dict__', {}).get('__pane_boundvars__')
     if bound_vars is not None and isinstance(ty, type):
